@@ -175,13 +175,15 @@ def make(cfg, outdir, **kw):
     return Sampler(pt, like, n_dim=2, n_particles=12, clustering=cfg.get("clustering", False),
                    sample=cfg.get("sample", "tpcn"), resample=cfg.get("resample", "mult"),
                    blobs_dtype=float if cfg.get("blobs") else None, pool=(cfg["pool"] if isinstance(cfg.get("pool"), int) and not isinstance(cfg.get("pool"), bool) else PoolLike()) if cfg.get("pool") else None,
-                   output_dir=str(outdir), output_label="ck", **kw)
+                   output_dir=str(outdir), output_label="ck", **({"cluster_every": cfg["cluster_every"]} if "cluster_every" in cfg else {}), **kw)
 
 
 def roundtrip_and_resume(run, tier, rng, work):
     from tempest.tools import effective_sample_size
     # pool=2 is the integer form: the library creates real worker processes itself
-    cfgs = [dict(), dict(pool=True), dict(blobs=True, sample="rwm"), dict(clustering=True, resample="syst"), dict(pool=2)]
+    # resume_all: resume from EVERY checkpoint (on and off the refit cadence, warm-up ones included), not only a middle one
+    cfgs = [dict(), dict(pool=True), dict(blobs=True, sample="rwm"), dict(clustering=True, resample="syst"), dict(pool=2),
+            dict(clustering=True, cluster_every=3, sample="rwm", resume_all=True)]
     if tier != "quick":
         cfgs += [dict(pool=True, blobs=True), dict(clustering=True, pool=True, sample="rwm"), dict(resample="syst", sample="rwm")]
     for ci, cfg in enumerate(cfgs):
@@ -225,7 +227,7 @@ def roundtrip_and_resume(run, tier, rng, work):
         if not ks:
             run.fail("no-checkpoints", "run(save_every=1) wrote no intermediate checkpoint", **what)
             continue
-        for k in ([ks[len(ks) // 2]] if tier == "quick" else [ks[0], ks[len(ks) // 2], ks[-1]]):
+        for k in (ks if cfg.get("resume_all") else [ks[len(ks) // 2]] if tier == "quick" else [ks[0], ks[len(ks) // 2], ks[-1]]):
             snapshot = snaps[f"ck_{k}.state"]
             s3 = make(cfg, work / f"cfg{ci}_resume{k}")
             try:
